@@ -313,6 +313,17 @@ func (store *HStore) GC(bucketID, beginChunkID, endChunkID, noGCDays int, merge,
 	}
 	verifPoint("gcreq:before-spawn")
 
+	// register the pass before it is spawned, so that a second request issued before the
+	// goroutine has started is refused as well
+	store.gcMgr.mu.Lock()
+	if _, exists := store.gcMgr.stat[bkt]; exists {
+		store.gcMgr.mu.Unlock()
+		err = fmt.Errorf("gc on bkt: %d already running", bucketID)
+		return
+	}
+	store.gcMgr.stat[bkt] = &GCState{Begin: begin, End: end, Running: true}
+	store.gcMgr.mu.Unlock()
+
 	go store.gcMgr.gc(bkt, begin, end, merge)
 	return
 }
